@@ -156,6 +156,10 @@ pub struct TransformerContext {
 }
 
 impl Surroundings {
+    pub fn config(&self) -> &TransformConfig {
+        &self.config
+    }
+
     /// The same surroundings with another previous element (as evaluated, as written)
     pub fn with_prev(mut self, prev: (Option<SvgElement>, Option<SvgElement>)) -> Self {
         (self.prev_element, self.prev_original) = prev;
@@ -432,8 +436,34 @@ impl TransformerContext {
     }
 
     /// The settings, if they are no longer those of `then`
-    pub fn config_changed_since(&self, then: &Surroundings) -> Option<TransformConfig> {
-        (format!("{:?}", self.config) != format!("{:?}", then.config)).then(|| self.config.clone())
+    pub fn config_changed_since(
+        &self,
+        then: &Surroundings,
+        current: &Surroundings,
+    ) -> Option<TransformConfig> {
+        Self::config_carried(&then.config, &self.config, &current.config)
+    }
+
+    /// `current` with the settings which differ between `was` and `now`, if any do:
+    /// what was configured otherwise - a limit, say - stays.
+    pub fn config_carried(
+        was: &TransformConfig,
+        now: &TransformConfig,
+        current: &TransformConfig,
+    ) -> Option<TransformConfig> {
+        let mut merged = current.clone();
+        macro_rules! carry {
+            ($($field:ident),*) => {
+                $(if format!("{:?}", now.$field) != format!("{:?}", was.$field) {
+                    merged.$field = now.$field.clone();
+                })*
+            };
+        }
+        carry!(
+            debug, scale, border, add_auto_styles, background, seed, loop_limit, var_limit,
+            depth_limit, add_metadata, font_size, font_family, theme, use_local_styles, svg_style
+        );
+        (format!("{:?}", merged) != format!("{:?}", current)).then_some(merged)
     }
 
     /// The position in the random sequence
